@@ -119,7 +119,9 @@ hij2mjd(hij_typ_t t, hij_epo_t e, struct ymd_s h)
 	const unsigned int doy = m[h.m] + h.d;
 	const unsigned int cyc = h.y / 30U;
 	const unsigned int k = h.y % 30U;
-	const unsigned int z1 = cyc * 10631U + (k * 1063100U + tsh[t]) / 3000U + doy;
+	/* tsh may be negative, keep the dividend positive to round down */
+	const unsigned int z1 =
+		cyc * 10631U + (k * 1063100U + 3000U + tsh[t]) / 3000U - 1U + doy;
 	return z1 + epo[e] - 2400000U;
 }
 
@@ -181,14 +183,20 @@ static inline __attribute__((const, pure)) struct ymd_s
 mjd2hij(hij_typ_t t, hij_epo_t e, mjd_t j)
 {
 /* integer only version of Gent's converter */
-	const unsigned int z = j + 2400000U - epo[e];
+	/* count days from 0 so the last day of a cycle stays in that cycle */
+	const unsigned int z = j + 2400000U - epo[e] - 1U;
 	const unsigned int cyc = z / 10631U;
 	const unsigned int z1 = z % 10631U;
-	const unsigned int k = (3000U * z1 - tsh[t]) / 1063100U - !z1;
-	const unsigned int z2 = z1 - (((int)k * 1063100 + tsh[t]) / 3000) + !z1;
+	/* the last year K (of 0..30) that begins on or before Z1 */
+	const unsigned int k = (3000U * (z1 + 1U) - tsh[t] - 1U) / 1063100U;
+	/* day of the year, same rounding as in hij2mjd() */
+	const unsigned int z2 =
+		z1 - ((k * 1063100U + 3000U + tsh[t]) / 3000U - 1U) + 1U;
 	/* output */
 	const unsigned int y = 30U * cyc + k;
-	const unsigned int m = (10000U * z2 + 285001U) / 295000U;
+	/* the intercalary day, 355, is Dhu al-Hijja 30, not 1st of month 13 */
+	const unsigned int m = z2 < 355U
+		? (10000U * z2 + 285001U) / 295000U : 12U;
 	const unsigned int d = z2 - (295001 * m - 290000U) / 10000U;
 	return (struct ymd_s){y, m, d};
 }
@@ -229,9 +237,9 @@ __hij_inty_p(hij_typ_t t, hij_epo_t UNUSED(e), unsigned int y)
  * type III: 2, 5, 8, 10, 13, 16, 19, 21, 24, 27 & 29 as intercalary years
  * type IV:  2, 5, 8, 11, 13, 16, 19, 21, 24, 27 & 30 as intercalary years */
 	const unsigned int k = y % 30U;
-	const unsigned int z1 = ((k * 1063100U + tsh[t]) / 3000U + 355U) % 10631U;
-	const unsigned int kr = (3000U * z1 - tsh[t]) / 1063100U - !z1;
-	return z1 - (((int)kr * 1063100 + tsh[t]) / 3000) + !z1 != 1;
+	const unsigned int y0 = (k * 1063100U + 3000U + tsh[t]) / 3000U;
+	const unsigned int y1 = ((k + 1U) * 1063100U + 3000U + tsh[t]) / 3000U;
+	return y1 - y0 == 355U;
 }
 
 static __attribute__((const, pure)) inline unsigned int
